@@ -35,6 +35,7 @@
 From Coq Require Import List String Bool QArith Arith.
 From NG Require Import Gen.C05Consts.
 Import ListNotations.
+Open Scope list_scope.
 Open Scope nat_scope.
 
 (* ---------------------------------------------------------------------------------- *)
@@ -64,7 +65,7 @@ Fixpoint scores_eqb (a b : list Q) : bool :=
   end.
 
 (* head.matching_scores + [1.0] * (max_length - len(head.matching_scores)) *)
-Definition pad (n : nat) (s : list Q) : list Q := s ++ repeat pad_value (n - length s).
+Definition pad (n : nat) (s : list Q) : list Q := s ++ repeat pad_value (n - List.length s).
 
 Fixpoint take_while {A} (f : A -> bool) (l : list A) : list A :=
   match l with
@@ -120,7 +121,7 @@ Section Conflict.
   (* ---- one group *)
   (* max(len(head.matching_scores) for head in group) *)
   Definition max_len (g : list cand) : nat :=
-    fold_right (fun c m => Nat.max (length (c_scores c)) m) 0 g.
+    fold_right (fun c m => Nat.max (List.length (c_scores c)) m) 0 g.
 
   (* sorted(group, key=..., reverse=sort_reverse): stable; with reverse=True elements with
      equal keys also keep their original order.  `stays_before kx ky` = an element with key
@@ -159,7 +160,7 @@ Section Conflict.
   Definition winner (pk : nat -> nat) (g : list cand) : option cand :=
     match ordered g with
     | [] => None
-    | h0 :: _ => Some (nth (pk (length (tie_set g))) (tie_set g) h0)
+    | h0 :: _ => Some (nth (pk (List.length (tie_set g))) (tie_set g) h0)
     end.
 
   (* body of `for head in ordered_heads:` for a head other than the picked one *)
@@ -287,20 +288,20 @@ Module Sanity.
        c_action := None; c_catch := [] |}.
   Definition pick0 : nat -> nat -> nat := fun _ _ => 0.
 
-  Definition doc_cands := [mk "b" "main" [9#10; 1; 1] "Sure"; mk "a" "main" [1; 1; 1] "Hello"].
+  Definition doc_cands := [mk "b" "main" [9#10; 1; 1]%Q "Sure"; mk "a" "main" [1; 1; 1]%Q "Hello"].
   Example doc_example :
     result_of (resolve string String.eqb pick0 doc_cands)
-    = {| r_advancing := ["a"]; r_emitted := [ev "Hello"]; r_aborted := [("fb", [9#10; 1; 1])];
+    = {| r_advancing := ["a"]; r_emitted := [ev "Hello"]; r_aborted := [("fb", [9#10; 1; 1]%Q)];
          r_jumped := []; r_merged := [] |}.
   Proof. vm_compute. reflexivity. Qed.
 
   (* shorter list padded with 1.0 wins against an equal prefix followed by a lower score;
      two loops never compete; identical actions co-win and are emitted once *)
   Definition cands2 :=
-    [mk "1" "L1" [9#10] "A"; mk "2" "L1" [9#10; 9#10] "B"; mk "3" "L2" [1#2] "C"; mk "4" "L1" [81#100] "A"].
+    [mk "1" "L1" [9#10]%Q "A"; mk "2" "L1" [9#10; 9#10]%Q "B"; mk "3" "L2" [1#2]%Q "C"; mk "4" "L1" [81#100]%Q "A"].
   Example padding_loops_cowin :
     result_of (resolve string String.eqb pick0 cands2)
     = {| r_advancing := ["1"; "4"; "3"]; r_emitted := [ev "A"; ev "C"];
-         r_aborted := [("f2", [9#10; 9#10])]; r_jumped := []; r_merged := [] |}.
+         r_aborted := [("f2", [9#10; 9#10]%Q)]; r_jumped := []; r_merged := [] |}.
   Proof. vm_compute. reflexivity. Qed.
 End Sanity.
